@@ -1085,7 +1085,7 @@ def make_snapshot_cases(run, pool, snaps):
             comps, env, filters, flags = gen_config(rng, snap)
             cases.append(("config", (snap, comps, env, filters, flags, [])))
         # 3. random removal sets (up to 40 paths) x random configuration
-        for _ in range(16 if quick else 80):
+        for _ in range(16 if quick else 50):
             comps, env, filters, flags = gen_config(rng, snap, plain=rng.random() < 0.3)
             pool_paths = rem
             if snap.kind == "x86+linux":
@@ -1098,18 +1098,18 @@ def make_snapshot_cases(run, pool, snaps):
             singles = sorted(set(rng.choices(sysrem, weights=[G.interest(p) for p in sysrem], k=24))) if sysrem else []
             pairs = []
         else:
-            # small snapshots: every single removal (<= 150 removable paths) and every pair (<= 16) is enumerated;
+            # small snapshots: every single removal (<= 100 removable paths) and every pair (<= 16) is enumerated;
             # larger ones are sampled, biased to the files discovery reads
-            if len(sysrem) <= 150:
+            if len(sysrem) <= 100:
                 singles = list(sysrem)
                 enumerated.setdefault("singles", []).append(snap.rel)
             else:
-                singles = sorted(set(rng.choices(sysrem, weights=[G.interest(p) for p in sysrem], k=200)))
+                singles = sorted(set(rng.choices(sysrem, weights=[G.interest(p) for p in sysrem], k=120)))
             if 2 <= len(sysrem) <= 16:
                 pairs = [(a, b) for i, a in enumerate(sysrem) for b in sysrem[i + 1:] if not b.startswith(a + "/")]
                 enumerated.setdefault("pairs", []).append(snap.rel)
             elif len(sysrem) > 16:
-                pairs = [tuple(sorted(rng.sample(sysrem, 2))) for _ in range(80)]
+                pairs = [tuple(sorted(rng.sample(sysrem, 2))) for _ in range(50)]
             else:
                 pairs = []
         for p in singles:
@@ -1126,7 +1126,7 @@ def class_of(p):
 def class_cases(run, pool, snaps):
     """Systematic single removals of attribute files under sys/devices/system (x86: the cpuid dump): one
     light case per (snapshot x file-name class) - the instance rotates with the seed - in the quick tier,
-    up to 16 instances per class in the thorough tier."""
+    up to 10 instances per class in the thorough tier."""
     quick = run.tier == "quick"
     cases = []
     nclasses = 0
@@ -1142,7 +1142,7 @@ def class_cases(run, pool, snaps):
         for cls in sorted(classes):
             inst = classes[cls]
             nclasses += 1
-            k = 1 if quick else min(len(inst), 16)
+            k = 1 if quick else min(len(inst), 10)
             start = (run.seed * 7 + len(cls)) % len(inst)
             step = max(1, len(inst) // k)
             for j in range(k):
